@@ -98,7 +98,7 @@ fn cases() -> Vec<Case> {
             v.push(Case::Token(rpc, t.to_string()));
         }
     }
-    for c in ["subscription-repeated", "max-bytes-repeated", "max-messages-repeated", "max-bytes-repeated-1", "max-messages-repeated-1", "max-bytes-repeated-max", "max-messages-repeated-max", "length-mismatch-more-ids", "length-mismatch-more-seconds", "valid-ack-plus-malformed-modify-id", "valid-ack-plus-negative-seconds", "empty"] {
+    for c in ["subscription-repeated", "max-bytes-repeated", "max-messages-repeated", "max-bytes-repeated-1", "max-messages-repeated-1", "max-bytes-repeated-max", "max-messages-repeated-max", "length-mismatch-more-ids", "length-mismatch-more-seconds", "length-mismatch-seconds-only", "length-mismatch-ids-only", "valid-ack-plus-malformed-modify-id", "valid-ack-plus-negative-seconds", "empty"] {
         v.push(Case::StreamCtl(c));
     }
     v
@@ -312,6 +312,8 @@ fn unit() -> Unit {
                         "max-bytes-repeated-max" => StreamingPullRequest { max_outstanding_bytes: i64::MAX, ..Default::default() },
                         "max-messages-repeated-max" => StreamingPullRequest { max_outstanding_messages: i64::MAX, ..Default::default() },
                         "length-mismatch-more-ids" => StreamingPullRequest { modify_deadline_ack_ids: vec![gid.clone(), "2".into()], modify_deadline_seconds: vec![10], ..Default::default() },
+                        "length-mismatch-seconds-only" => StreamingPullRequest { modify_deadline_seconds: vec![10], ..Default::default() },
+                        "length-mismatch-ids-only" => StreamingPullRequest { modify_deadline_ack_ids: vec![gid.clone()], ..Default::default() },
                         "length-mismatch-more-seconds" => StreamingPullRequest { modify_deadline_ack_ids: vec![gid.clone()], modify_deadline_seconds: vec![10, 10], ..Default::default() },
                         _ => StreamingPullRequest::default(),
                     };
